@@ -14,7 +14,62 @@ def run(ctx):
     rng, drv = ctx.rng, ctx.drv
     from harness import degen
     degen.evaluate(ctx, "region")      # deterministic non-transversal corpus (findings K2-*)
-    n = 40 if ctx.quick else 1500
+    # ---- nested leaves (no crossings at all): rings inside the holes of rings, to any depth
+    for it in range(4 if ctx.quick else 60):
+        base = gen.star_polygon(rng, rng.randint(4, 7), 16, rng.randint(-3, 3), rng.randint(-3, 3), den=1)
+        if gen.area2(base) < 0:
+            base = base[::-1]
+        c = (sum(p[0] for p in base) / len(base), sum(p[1] for p in base) / len(base))
+        depth = rng.randint(4, 6)
+        facs = [F(depth - i, depth) for i in range(depth)]
+        vss = [[(c[0] + f * (x - c[0]), c[1] + f * (y - c[1])) for x, y in base] for f in facs]
+        if drv.ask("simplej " + core.epoly(base)) != "T":
+            continue
+        # ((s0 - s1) | (s2 - s3) | ...), optionally complemented
+        e = None
+        for i in range(0, depth - 1, 2):
+            ring = ("B", "sub", ("L", i), ("L", i + 1))
+            e = ring if e is None else ("B", rng.choice(["or", "add", "xor"]), e, ring)
+        if depth % 2 == 1:
+            e = ("B", "or", e, ("L", depth - 1))
+        if it % 2 == 1:
+            e = ("I", "~", e)
+        desc = {"leaves": vss, "expr": impl.show_expr(e), "family": "nested"}
+        try:
+            with impl.time_limit(120):
+                R = impl.eval_expr(e, [impl.poly(vs) for vs in vss])
+                R2 = ~(~R)
+        except impl.Timeout:
+            ctx.fail("operator did not return within 120 s", desc); continue
+        except Exception as ex:
+            ctx.fail("operator raised on operands that do not touch", desc, got=repr(ex)); continue
+        ctx.case("nested-leaves", (repr(vss), impl.show_expr(e)))
+        leaves_tok = core.elist(vss, impl.shape_tokens_of_vertices)
+        for X, nm in ((R, "result"), (R2, "double complement of the result")):
+            ans = drv.ask(f"exprcheck {leaves_tok} {impl.enc_expr(e)} {core.eshape(X)}")
+            ctx.check(ans == "ok", "nested rings: result region differs from the pointwise meaning", {**desc, "which": nm, "witness": ans})
+    # ---- operands that met before while far apart, then moved onto each other in place
+    for it in range(6 if ctx.quick else 120):
+        va, vb = impl.leaf_family(ctx, 2, pinv=0.5)
+        A = impl.poly(va)
+        B = impl.poly([(x + 60, y) for x, y in vb])
+        e = impl.rand_expr(rng, range(2))
+        desc = {"leaves": [va, vb], "expr": impl.show_expr(e), "family": "met-before-while-apart"}
+        try:
+            with impl.time_limit(120):
+                impl.eval_expr(e, [A, B]); (A & B, A | B, B in A, A in B, A.box(), B.box(), float(A), float(B))
+                B.move(-60, 0)
+                if it % 2 == 0:
+                    A.scale(1, 1); B.scale(1, 1)
+                R = impl.eval_expr(e, [A, B])
+        except impl.Timeout:
+            ctx.fail("operator did not return within 120 s", desc); continue
+        except Exception as ex:
+            ctx.fail("operator raised on transversal operands", desc, got=repr(ex)); continue
+        ctx.case("met-before", (repr(va), repr(vb), impl.show_expr(e)))
+        ans = drv.ask(f"exprcheck {core.elist([va, vb], impl.shape_tokens_of_vertices)} {impl.enc_expr(e)} {core.eshape(R)}")
+        ctx.check(ans == "ok", "operands moved in place after an earlier operation: result region differs from the pointwise meaning", {**desc, "witness": ans})
+    n = 40 if ctx.quick else 600
     for it in range(n):
         k = rng.choice([2, 2, 2, 3, 3, 4, 5])
         if it % 4 == 3:
@@ -24,6 +79,14 @@ def run(ctx):
             vss = impl.leaf_family(ctx, k)
         e = impl.rand_expr(rng, range(k))
         shapes = [impl.poly(vs) for vs in vss]
+        if it % 3 == 1:
+            # operands that already have a history (warm caches, moved away and back, refined by split, complemented in place)
+            from harness import shapes as shp
+            hist = []
+            for i, vs in enumerate(vss):
+                shapes[i], h = shp.vary_history(rng, shapes[i], ("S", vs))
+                hist.append(h)
+                ctx.count("history:" + h)
         desc = {"leaves": vss, "expr": impl.show_expr(e)}
         ctx.sample(core.jsonable(desc), limit=3)
         for o in impl.expr_ops(e):
